@@ -146,7 +146,7 @@ def run(tier, seed):
         states += r.distinct
         trans += r.generated
     view = [("kw", kw("CREATE")), ("id", kw("VIEW")), ("name", kw("v0")), ("kw", kw("AS")), ("id", kw("SELECT")), ("id", kw("a")), ("id", kw("WHERE")), ("id", kw("a")), ("id", kw(">")), ("id", kw("0"))]
-    r = F.mc(F.consts(tb, batch[:6] + [view]), "statement sequences incl. a stray `>` (flags reset)", invs=["FreshAtStart", "DepthTracked"])
+    r = F.mc(F.consts(tb, batch[:6] + [view]), "statement sequences incl. a stray `>` (flags reset)", invs=["FreshAtStart"])
     states += r.distinct
     trans += r.generated
     F.mc(F.consts(tb, batch[:3] + [view], ResetFlags='AllFlags \\ {"lt_open"}'), "lt_open not reset", invs=["FreshAtStart"], expect="FreshAtStart")
